@@ -496,3 +496,70 @@ def identifier_contracts():
         Exit("return", res="bool", post=lambda pre, post, a, r: [("is_identifier == the ODL identifier rule", r.t == spec(sval(a["value"])))])],
         props=("C17", "C12"))
     return [c]
+
+
+# ------------------------------------------------------------------------------------------------
+# T_enc: date/time dispatch (C14: values keep their type) and ODL parameter-name refusal (C12)
+
+def dispatch_contracts():
+    from ..pyvc.core import Z, ObjV
+    from ..pyvc.objtheory import S, sval, strlen, lit, prefixof
+    from ..pyvc.enctheory import type_is, type_id, assign_ok, tail1
+    E = "pvl.encoder."
+    out = []
+
+    def callee(cls, name, params=None):
+        k = Contract(E + cls + "." + name, params=params or {"value": "pyval"}, exits=[
+            Exit("return", res=lambda ex: Z("str", z3.Const("result_of_" + name, S))), Exit("ValueError"), Exit("TypeError")])
+        k.assumed = True
+        k.note = "signature only: returns a str or raises ValueError/TypeError"
+        return k
+    for cls, nm in (("PVLEncoder", "encode_date"), ("PVLEncoder", "encode_time"), ("PVLEncoder", "encode_datetime"),
+                    ("ODLEncoder", "encode_time"), ("PDSLabelEncoder", "encode_time"), ("PVLEncoder", "encode_value"),
+                    ("ODLEncoder", "encode_value")):
+        out.append(callee(cls, nm))
+    fmtc = Contract(E + "PVLEncoder.format", params={"s": "opaque", "level": "int"}, exits=[
+        Exit("return", res=lambda ex: Z("str", z3.Const("result_of_format", S)))])
+    fmtc.assumed = True
+    fmtc.note = "signature only (indentation and textwrap: bounded conformance reader)"
+    out.append(fmtc)
+    ias = Contract(E + "ODLEncoder.is_assignment_statement", params={"s": "str"}, exits=[
+        Exit("return", res="bool", post=lambda pre, post, a, r: [("deterministic", r.t == assign_ok(sval(a["s"])))])])
+    ias.assumed = True
+    ias.pure = True
+    ias.note = "an uninterpreted predicate of the text here (element / namespace identifier: decoder.is_identifier contract + bounded driver)"
+    out.append(ias)
+
+    def res(name):
+        return z3.Const("result_of_" + name, S)
+
+    def ty(a, name):
+        return type_is(a["value"].info["id"], type_id(name))
+
+    def dt_post(pre, post, a, r):
+        isdt, isd, ist = ty(a, "datetime.datetime"), ty(a, "datetime.date"), ty(a, "datetime.time")
+        return [("a datetime is written as a date-time (a datetime is also a date: it must be tested first)",
+                 z3.Implies(isdt, r.t == res("encode_datetime"))),
+                ("a date that is not a datetime is written as a date", z3.Implies(z3.And(z3.Not(isdt), isd), r.t == res("encode_date"))),
+                ("a time is written as a time", z3.Implies(z3.And(z3.Not(isdt), z3.Not(isd), ist), r.t == res("encode_time")))]
+
+    def not_temporal(pre, a):
+        return z3.Not(z3.Or(ty(a, "datetime.datetime"), ty(a, "datetime.date"), ty(a, "datetime.time")))
+    c = Contract(E + "PVLEncoder.encode_datetype", params={"value": "pyval"}, exits=[
+        Exit("return", res="str", post=dt_post), Exit("ValueError"),
+        Exit("TypeError", when=lambda pre, a: z3.BoolVal(True))], props=("C14", "C01"))
+    c.cases = [(cls, {"value": "pyval", "__cls__": cls}) for cls in ("PVLEncoder", "ODLEncoder", "PDSLabelEncoder", "ISISEncoder")]
+    out.append(c)
+
+    def name_ok(a):
+        k = sval(a["key"])
+        return z3.And(strlen(k) <= 30, z3.Or(z3.And(prefixof(k, lit("^")), assign_ok(tail1(k))), assign_ok(k)))
+    c = Contract(E + "ODLEncoder.encode_assignment", params={"key": "str", "value": "pyval", "level": "int", "key_len": "int"}, exits=[
+        Exit("return", res="str", when=lambda pre, a: name_ok(a),
+             post=lambda pre, post, a, r: [("a statement is written only for a name of at most 30 characters that is an ODL "
+                                            "(pointer / namespace) identifier", name_ok(a))]),
+        Exit("ValueError"), Exit("TypeError")], props=("C12",))
+    c.cases = [(f"{cls}{'-default-width' if kl == 'none' else ''}", {"key": "str", "value": "pyval", "level": "int", "key_len": kl, "__cls__": cls})
+               for cls in ("ODLEncoder", "PDSLabelEncoder") for kl in ("int", "none")]
+    out.append(c)
+    return out
